@@ -496,8 +496,11 @@ def check_cookie(r, name, value, full, late=False, delete=False):
         if parts[1:] != expect:
             r.violation("cookie:attribute-injected", w, f"{iface} cookie ({name!r}, {value!r}) -> {line!r}: attributes {parts[1:]} expected {expect}")
             continue
-        if "," in parts[0] and False:
-            pass
+        if "," in parts[0]:
+            # field lines of one name may be joined with commas on their way; a raw comma in the name=value piece reads as the start
+            # of another cookie to whoever splits the line again (the library escapes it like ';')
+            r.violation("cookie:second-cookie-by-comma", w, f"{iface} cookie ({name!r}, {value!r}) -> {line!r}: a raw comma in the name=value piece")
+            continue
         r.add("outcomes", ("cookie", len(parts)))
 
 
